@@ -289,6 +289,66 @@ def oracle_mock_fsc_reproducible(ck, rng):
                      oracle="mock_fsc_reproducible")
 
 
+def oracle_alignment_fsc(ck, rng):
+    """the FSC score of the alignment model (mean over the shells where both inputs have power) obeys the same laws: finite, within
+    [-1, 1], symmetric in its two inputs, 1 for identical inputs, unchanged by positive rescaling -- also when one input has shells
+    without any power (an image constant along one axis) that the other input fills"""
+    from acryo.alignment import FSCAlignment
+    q = np.array([0, 0, 0, 1], dtype=np.float32); p0 = np.zeros(3, dtype=np.float32)
+    for it in range(4 if ck.tier == "quick" else 30):
+        n = int(rng.choice([8, 16, 12]))
+        shape = (n, n, n) if it % 2 == 0 else (n, n + 2, n)
+        noise = rng.normal(size=shape).astype(np.float32)
+        plane = rng.normal(size=shape[1:]).astype(np.float32)
+        extr = np.broadcast_to(plane[None], shape).copy()
+        pairs = {"extruded vs noise": (extr, noise), "extruded vs noise + extruded": (extr, (noise + 2 * extr).astype(np.float32)),
+                 "noise vs noise": (noise, rng.normal(size=shape).astype(np.float32))}
+        for name, (x, y) in pairs.items():
+            ck.oracle_count("alignment_fsc_laws", 1, 1)
+            fails = []
+            try:
+                sxy = float(FSCAlignment(x).score(y, q, p0)); syx = float(FSCAlignment(y).score(x, q, p0))
+                sxx = float(FSCAlignment(x).score(x, q, p0)); sg = float(FSCAlignment(x).score((3.5 * y).astype(np.float32), q, p0))
+                for nm_, v in (("score(x, y)", sxy), ("score(y, x)", syx)):
+                    if not np.isfinite(v) or abs(v) > 1 + 1e-5:
+                        fails.append(f"{nm_} = {v} is not a finite number in [-1, 1]")
+                if np.isfinite(sxy) and np.isfinite(syx) and abs(sxy - syx) > 1e-4:
+                    fails.append(f"not symmetric: score(x, y) = {sxy:.5f}, score(y, x) = {syx:.5f}")
+                if not abs(sxx - 1) < 1e-4:
+                    fails.append(f"score of an image with itself = {sxx}")
+                if np.isfinite(sxy) and abs(sg - sxy) > 1e-4:
+                    fails.append(f"changed by rescaling one input: {sxy:.5f} -> {sg:.5f}")
+            except Exception as e:  # noqa
+                fails = [f"raised {type(e).__name__}: {e}"]
+            for fl in fails[:2]:
+                ck.violation(what=f"FSCAlignment score, {name}, box {shape}: {fl}", inp={"pair": name, "shape": list(shape), "seed": ck.seed, "iteration": it},
+                             key={"site": "alignment-fsc", "law": fl.split(" ")[0]}, oracle="alignment_fsc_laws")
+
+
+def oracle_mock_nonunit_axis(ck, rng):
+    """reproducibility for a MockLoader whose tilt axis is given as a vector that is not of unit length, an odd number of molecules, three calls"""
+    from acryo import MockLoader, Molecules
+    from scipy.spatial.transform import Rotation
+    tmpl = np.zeros((9, 9, 9), dtype=np.float32); tmpl[3:6, 2:7, 4:6] = 1.0; tmpl[5, 5, 2:7] = 2.0
+    mol5 = Molecules(rng.normal(size=(5, 3)) * 0.3, Rotation.random(5, random_state=2))
+    mk2 = lambda: MockLoader(tmpl, mol5, noise=0.3, degrees=np.linspace(-60, 60, 9), central_axis=(0.0, 2.0, 0.0), order=1)
+    ck.oracle_count("mock_fsc_reproducible", 1, 1)
+    try:
+        ld2 = mk2()
+        runs = [ld2.fsc_with_halfmaps(seed=0, dfreq=0.2) for _ in range(3)]
+        fresh = mk2().fsc_with_halfmaps(seed=0, dfreq=0.2)
+        curves = [r_[0].to_numpy() for r_ in runs] + [fresh[0].to_numpy()]
+        halves = [np.asarray(r_[1][0]) for r_ in runs] + [np.asarray(fresh[1][0])]
+        dev = max(float(np.nanmax(np.abs(c_ - curves[0]))) for c_ in curves)
+        hdev = max(float(np.abs(h_ - halves[0]).max()) for h_ in halves)
+        bad = None if dev <= 1e-5 and hdev <= 1e-5 else f"curves differ by up to {dev:.3g}, half maps by up to {hdev:.3g} between calls / loaders"
+    except Exception as e:  # noqa
+        bad = f"raised {type(e).__name__}: {e}"
+    if bad:
+        ck.violation(what=f"MockLoader(central_axis=(0, 2, 0), 5 molecules).fsc_with_halfmaps(seed=0) is not reproducible: {bad}", inp={"central_axis": [0, 2, 0], "n": 5},
+                     key={"site": "mock-fsc-reproducible", "axis": "non-unit"}, oracle="mock_fsc_reproducible")
+
+
 def run(ck: common.Check):
     ck.design_ref = "DESIGN.md §6 C17"
     ck.trusted_base = TB
@@ -309,6 +369,8 @@ def run(ck: common.Check):
     from acryo._utils import fourier_shell_correlation as fscf
     oracle_loader_fsc_variants(ck, np.random.default_rng(ck.seed + 171717), fscf)
     oracle_mock_fsc_reproducible(ck, np.random.default_rng(ck.seed + 17017))
+    oracle_alignment_fsc(ck, np.random.default_rng(ck.seed + 17117))
+    oracle_mock_nonunit_axis(ck, np.random.default_rng(ck.seed + 17217))
 
 
 def replay(data):
